@@ -3325,6 +3325,9 @@ def gen_all(repo):
             elif spec.get("ctx_mode"):          # round 7 (worker T): statement ranges of `HeContext::validate` (tools/rs2lean_ctx.py)
                 import rs2lean_ctx
                 res[name] = rs2lean_ctx.generate(sys.modules[__name__], tr, spec)
+            elif spec.get("ckks_mode"):       # phase 4k: integer side of the CKKS encoder (tools/rs2lean_ckks.py)
+                import rs2lean_ckks
+                res[name] = rs2lean_ckks.generate(sys.modules[__name__], tr, spec)
             else: res[name] = ladder_file(tr, spec) if spec.get("ladder") else tr.run_file(spec)
         except (Unsupported, SystemExit) as ex: res[name] = GenFailed(str(ex))
         except Exception as ex: res[name] = GenFailed("translator error: %s: %s" % (type(ex).__name__, ex))
@@ -3878,6 +3881,11 @@ FILES += [
         {"file": "src/text.rs", "fn": "expand_seed", "impl": "ExpandSeed for Ciphertext", "skeleton": "expand_seed", "model": "Encrypt.expandSeed (skeleton over the flat buffer)"},
     ]}),
 ]
+
+# Phase 4k (worker Y): the integer side of the CKKS encoder (tools/rs2lean_ckks.py, "encoder mode"; notes/work7-Y.md)
+import rs2lean_ckks as _ckks
+FILES += [("CkksFns.lean", {"ns": "GenK", "ckks_mode": True, "imports": ["Heathcliff.Model.CkksEncoder", "Heathcliff.Gen.WordFns", "Heathcliff.Gen.PolyFns"],
+                            "table": _ckks.TABLE})]
 
 
 # (task S) data skeletons of `bgv_square` / `ckks_square` (tables in tools/rs2lean_sq.py)
